@@ -14,4 +14,5 @@ CONSTANTS
   BugCache = FALSE
   BugAccessorMutates = FALSE
   BugJsonAlias = FALSE
+  BugEntryPointWritesTables = FALSE
 CHECK_DEADLOCK FALSE
